@@ -92,6 +92,9 @@ def gen_plan(seed, prop, faults, nested=False):
             fa = list(atoms)
             if rng.random() < 0.3:
                 fa.append('zz')          # an atom absent from every structure
+            if cfg['fair'] and rng.random() < 0.3:
+                # an atom named like the internal fairness label
+                fa.append(rng.choice(['fair', 'fair', 'fair0']))
             if cfg['weird_atoms'] and rng.random() < 0.5:
                 fa = fa + rng.sample(WEIRD_ATOMS, 2)
             tmax = 2 if logic != 'CTL' else 3
@@ -244,6 +247,23 @@ def gen_plan(seed, prop, faults, nested=False):
                 op['nest']['in'] = rng.choice(HOT)
         ops.append(op)
         calls.append(len(ops) - 1)
+        if op['q']['F'] is not None and rng.random() < 0.4:
+            # same structure, same fairness list, another formula
+            q3 = dict(op['q'])
+            cands = [fi for fi, f in enumerate(formulas)
+                     if 'mc' not in f and f['logic'] != 'LTL']
+            fairish = [fi for fi in cands if any(
+                a.startswith('fair')
+                for a in core.formula_atoms(formulas[fi]['tree']))]
+            if fairish and rng.random() < 0.6:
+                cands = fairish
+            if cands:
+                q3['f'] = rng.choice(cands)
+                q3['mc'] = formulas[q3['f']]['logic']
+                q3['form'] = 'obj'
+                q3['parser'] = 'none'
+                ops.append({'op': 'call', 'q': q3})
+                calls.append(len(ops) - 1)
     return {'prop': prop, 'cfg': cfg, 'formulas': formulas,
             'structs': structs, 'ops': ops}
 
